@@ -1356,6 +1356,9 @@ def emit_block(unit, loc, dlines, tmpl_where):
         if body[ma.end() - 1] != '{':
             raise Unsupported('%s: `{*}` needs a start anchor that ends with an opening brace' % tmpl_where)
         cb_ = match_brace(body, bmask, ma.end() - 1)
+        if re.match(r'if\b', body[ma.start():]):
+            # an `if` statement includes its else branches
+            cb_ = _if_chain_end(body, bmask, ma.start()) - 1
         mb = _Span0(cb_ + 1)
         blk = body[ma.start():cb_ + 1]
     elif b_txt == '{}':
